@@ -584,7 +584,7 @@ func c10selections(n, maxlen int) [][]int {
 
 func c10native(r *vlib.Run, e *c10env) {
 	maxlen := vlib.Pick(r, 2, 3)
-	reps := vlib.Pick(r, 3, 4)
+	reps := vlib.Pick(r, 2, 4)
 	sels := c10selections(len(e.menu), maxlen)
 	r.Set("native_inputs_enumerated", len(sels))
 	r.Set("native_max_selection", maxlen)
@@ -850,25 +850,29 @@ func (e *c10env) schedScenarios(r *vlib.Run) []c10scenario {
 		}
 	}
 	all2 := c10selections(len(e.menu), 2)
-	if !r.Thorough() {
-		add(all2, []int64{1, 2, 64}, "A", false, false, 1)
-		add(conflicts[:6], []int64{2, 64}, "B", true, true, 1)
-		add([][]int{conflicts[0], conflicts[7]}, []int64{2}, "A", false, false, 2)
-		return scs
-	}
-	add(all2, []int64{1, 64}, "A", false, false, 1)
-	add(all2, []int64{2}, "A", false, false, 2)
-	add(conflicts[:6], []int64{64}, "A", false, false, 2)
-	add(all2, []int64{2, 64}, "B", true, true, 1)
-	add(conflicts, []int64{2}, "B", false, true, 1)
-	add(conflicts, []int64{2}, "A", true, false, 1)
-	var all3 [][]int
+	var singles, all3 [][]int
 	for _, c := range c10selections(len(e.menu), 3) {
-		if len(c) == 3 {
+		switch len(c) {
+		case 1:
+			singles = append(singles, c)
+		case 3:
 			all3 = append(all3, c)
 		}
 	}
-	add(all3, []int64{64}, "A", false, false, 1)
+	if !r.Thorough() {
+		add(all2, []int64{2}, "A", false, false, 1)
+		add(conflicts, []int64{1, 64}, "A", false, false, 1)
+		add(conflicts[:6], []int64{2, 64}, "B", true, true, 1)
+		return scs
+	}
+	add(all2, []int64{1, 2, 64}, "A", false, false, 1)
+	add(all2, []int64{2, 64}, "B", true, true, 1)
+	add(conflicts, []int64{2}, "B", false, true, 1)
+	add(conflicts, []int64{2}, "A", true, false, 1)
+	add(all3, []int64{2, 64}, "A", false, false, 1)
+	add(singles, []int64{2, 64}, "A", false, false, 2)
+	add(conflicts, []int64{2}, "A", false, false, 2)
+	add(conflicts[:6], []int64{64}, "A", false, false, 2)
 	return scs
 }
 
@@ -878,6 +882,14 @@ func c10sched(r *vlib.Run, e *c10env) {
 	shard, nshards := r.Shard()
 	orig := crand.Reader
 	defer func() { crand.Reader = orig }()
+	var lvl1total int64
+	defer func() {
+		if !r.Expired() {
+			// every shard walks every scenario's base schedule: the totals must agree (min == max in the evidence)
+			r.Max("first_level_branches_total_max_over_shards", lvl1total)
+			r.Min("first_level_branches_total_min_over_shards", lvl1total)
+		}
+	}()
 	var global int64 // first-level branches over all scenarios, dealt round-robin to the shards
 	for _, s := range scs {
 		if r.Expired() {
@@ -971,6 +983,7 @@ func c10sched(r *vlib.Run, e *c10env) {
 		owner := nshards <= 1 || int(base%int64(nshards)) == shard // the shard that counts the base execution of this scenario
 		x.explore(owner)
 		global += x.lvl1 + 1
+		lvl1total += x.lvl1
 		restore()
 		if x.engine != "" {
 			panic("engine error in " + id + ": " + x.engine)
